@@ -62,6 +62,9 @@ def _parser(db, chk, enc_rule="C01.R6-encode-agreement", full=True):
             if isinstance(recv, Obj) and recv.name.startswith("TraceSymbolTable#"):
                 if name.endswith(".add_symbols"):
                     tables.append(("add", to_term(pos[0])))
+                    # what the call leaves behind, for code that reads the containers directly instead of through get_sym_id_map()
+                    if isinstance(recv.attrs.get("sym_index"), dict) and not recv.attrs["sym_index"]:
+                        recv.attrs["sym_index"] = T.P("LOCAL_ID_MAP")
                     return None
                 return T.P("LOCAL_ID_MAP")
         return NotImplemented
